@@ -73,6 +73,19 @@ inductive Res where
   | ok | err | panic
   deriving DecidableEq, Repr, Inhabited
 
+/-- the periodic flush of appendLine (`lastFlush` already refreshed) and `offset += n` -/
+def fFlushDue (st2 : FSnap) (n : Nat) : FSnap × Res :=
+  if st2.s.buf = [] then ({ st2 with s := { st2.s with offset := st2.s.offset + n } }, .ok)
+  else
+    let r2 := doOpW st2 (.write .main st2.s.buf) (!st2.fhClosed)
+    if !r2.2 then ({ r2.1 with sticky := true }, .err)
+    else ({ r2.1 with s := { r2.1.s with buf := [], offset := r2.1.s.offset + n } }, .ok)
+
+/-- the periodic flush and `offset += n` of appendLine, once the line is in the buffer -/
+def fAfterWrite (st1 : FSnap) (n : Nat) : FSnap × Res :=
+  if st1.s.flushDue then fFlushDue { st1 with s := { st1.s with flushDue := false } } n
+  else ({ st1 with s := { st1.s with offset := st1.s.offset + n } }, .ok)
+
 /-- `buffered.WriteString(l)` + periodic flush + `offset += n` (first half of appendLine) -/
 def fAppendBytes (st : FSnap) (l : Bytes) : FSnap × Res :=
   if !st.writer then ({ st with panicked := true }, .panic)
@@ -81,16 +94,7 @@ def fAppendBytes (st : FSnap) (l : Bytes) : FSnap × Res :=
     let w := bufWrite st.s.buf l
     let r := doWrites st .main (!st.fhClosed) w.2
     if !r.2 then ({ r.1 with sticky := true }, .err)
-    else
-      let st1 := { r.1 with s := { r.1.s with buf := w.1 } }
-      if st1.s.flushDue then
-        let st2 := { st1 with s := { st1.s with flushDue := false } }
-        if st2.s.buf = [] then ({ st2 with s := { st2.s with offset := st2.s.offset + l.length } }, .ok)
-        else
-          let r2 := doOpW st2 (.write .main st2.s.buf) (!st2.fhClosed)
-          if !r2.2 then ({ r2.1 with sticky := true }, .err)
-          else ({ r2.1 with s := { r2.1.s with buf := [], offset := r2.1.s.offset + l.length } }, .ok)
-      else ({ st1 with s := { st1.s with offset := st1.s.offset + l.length } }, .ok)
+    else fAfterWrite { r.1 with s := { r.1.s with buf := w.1 } } l.length
 
 /-- `compact()`, first half: write, sync and close `path.compact`; `true` = complete -/
 def fCompactFront (st : FSnap) (lines : List Bytes) : FSnap × Bool :=
